@@ -102,6 +102,10 @@ def run_case(ctx, rng, job):
         D = Declaration(*args)
         decls.append((D, flat, depth))
         ctx.op('decl', nm(flat), depth)
+    # the shared empty declaration (what directlyProvidedBy returns for an object without declarations) and a
+    # freshly built empty one are operands too
+    decls.append((directlyProvidedBy(object()), [], 0))
+    decls.append((Declaration(), [], 0))
     singles = [(i, [i], 0) for i in rng.sample(ifs, min(2, len(ifs)))]
     related_pairs = 0
     for A, la, da in decls:
@@ -142,12 +146,16 @@ def run_case(ctx, rng, job):
             if rel_ab or rel_ba:
                 related_pairs += 1
             exp_sub = [i for i in la if not any(ext(i, j) for j in lb)]
-            got = list(A - B)
+            diff = A - B
+            got = list(diff)
             if not (len(got) == len(exp_sub) and all(x is y for x, y in zip(got, exp_sub))):
                 ctx.violation('subtraction', {'A': nm(la), 'B': nm(lb), 'got': nm(got), 'expected': nm(exp_sub)})
+            if not isinstance(diff, Declaration) or any((i in diff) != any(i is x for x in exp_sub) for i in ifs):
+                ctx.violation('difference-is-not-a-declaration-of-those', {'A': nm(la), 'B': nm(lb), 'type': type(diff).__name__})
             union, front, back, free = expected_add(la, lb)
             try:
-                got = list(A + B)
+                total = A + B
+                got = list(total)
             except Exception as e:
                 if type(e).__name__ == 'InconsistentResolutionOrderError':
                     ctx.count('add_strict_errors')
@@ -180,6 +188,8 @@ def run_case(ctx, rng, job):
                     order = [n for x in got for n, y in enumerate(grp) if x is y]
                     if order != sorted(order):
                         ok, why = False, 'empty-A-order'
+            if ok and (not isinstance(total, Declaration) or any((i in total) != any(i is x for x in union) for i in ifs)):
+                ok, why = False, 'sum is not a declaration of exactly those (type %s)' % type(total).__name__
             if not ok:
                 ctx.violation('addition', {'A': nm(la), 'B': nm(lb), 'got': nm(got), 'why': why,
                                            'front': nm(front), 'back': nm(back), 'free': nm(free)})
